@@ -97,7 +97,7 @@ func c15Cmd(c *Ctx) {
 		R.Check(bad == "", "C15.R5", name+":policy", "cmd/"+name+": policy built in main", pos, "documented policy ("+want.Base+" plus the documented additions)", "the tool's policy differs from its documentation: "+bad)
 		// I/O shape
 		okIO, why := cmdIO(main, sanCall)
-		R.Check(okIO, "C15.R5", name+":io", "cmd/"+name+": stdin → p.Sanitize → stdout", c.P.Pos(sanCall.Pos()), "fmt.Fprint(os.Stdout, p.Sanitize(string(io.ReadAll(os.Stdin)))) and no other output", why)
+		R.Check(okIO, "C15.R5", name+":io", "cmd/"+name+": stdin → p.Sanitize → stdout", c.P.Pos(sanCall.Pos()), "the Sanitize result of all of stdin is written to stdout exactly once, unformatted, and nothing else is", why)
 	}
 	R.Role("C15.R5", "command-line tools", n, 2)
 }
@@ -145,8 +145,64 @@ func cmdIO(main *ssa.Function, san *ssa.Call) (bool, string) {
 			if cal.Pkg == nil {
 				continue
 			}
+			toStdout := func(w ssa.Value) bool {
+				if mi, ok := w.(*ssa.MakeInterface); ok {
+					w = mi.X
+				}
+				return isGlobalLoad(w, "os", "Stdout")
+			}
+			isResult := func(v ssa.Value) bool {
+				if cv, ok := v.(*ssa.Convert); ok { // []byte(result)
+					v = cv.X
+				}
+				return v == ssa.Value(san)
+			}
 			switch cal.Pkg.Pkg.Path() {
+			case "os":
+				// os.Stdout.WriteString(result) / os.Stdout.Write([]byte(result))
+				if (cal.Name() == "WriteString" || cal.Name() == "Write") && len(cl.Common().Args) == 2 && toStdout(cl.Common().Args[0]) {
+					if !isResult(cl.Common().Args[1]) {
+						return false, "something other than the Sanitize result is written to os.Stdout"
+					}
+					printed++
+				}
+			case "io":
+				if cal.Name() == "WriteString" && len(cl.Common().Args) == 2 && toStdout(cl.Common().Args[0]) {
+					if !isResult(cl.Common().Args[1]) {
+						return false, "something other than the Sanitize result is written to os.Stdout"
+					}
+					printed++
+				}
 			case "fmt":
+				if cal.Name() == "Print" {
+					// fmt.Print(result): a single string operand is written as is
+					sl, ok := cl.Common().Args[0].(*ssa.Slice)
+					al, ok2 := (ssa.Value)(nil), false
+					if ok {
+						al, ok2 = sl.X.(*ssa.Alloc)
+					}
+					n, good := 0, ok && ok2
+					if good {
+						for _, r := range *al.(*ssa.Alloc).Referrers() {
+							if ia, ok := r.(*ssa.IndexAddr); ok {
+								for _, r2 := range *ia.Referrers() {
+									if st, ok := r2.(*ssa.Store); ok {
+										n++
+										mi, ok := st.Val.(*ssa.MakeInterface)
+										if !ok || mi.X != ssa.Value(san) {
+											good = false
+										}
+									}
+								}
+							}
+						}
+					}
+					if n != 1 || !good {
+						return false, "fmt.Print prints something other than exactly the Sanitize result"
+					}
+					printed++
+					continue
+				}
 				if strings.HasPrefix(cal.Name(), "Print") {
 					return false, "extra output through fmt." + cal.Name()
 				}
